@@ -649,6 +649,9 @@ def run_operator(ctx: Ctx, spec, ops, opsj):
     if k == "bin":
         def f():
             return apply_bin(spec["op"], ops[0], ops[1])
+    elif k == "round":
+        def f():
+            return {"floor": math.floor, "ceil": math.ceil, "trunc": math.trunc, "round": round}[spec["op"]](ops[0])
     else:
         def f():
             return {"neg": lambda q: -q, "abs": abs, "pos": lambda q: +q}[spec["op"]](ops[0])
@@ -685,7 +688,7 @@ def run_call(ctx: Ctx, spec):
         return {"setup_failed": f"{type(exc).__name__}: {exc}"}, [], None
     opsj = [canon_value(ctx, o) for o in ops]
     raw = None
-    if k in ("bin", "un"):
+    if k in ("bin", "un", "round"):
         return run_operator(ctx, spec, ops, opsj)
     try:
         if False:
@@ -895,6 +898,38 @@ def run_correspondence(run: C.Run, ctx: Ctx, cases, shard: int = 500):
     _SIG_DEFS.clear()
     results = coqc_tree_many(ctx.tree.dir, files)
     mism = list(unrepresentable)
+    for ch, f, (rc, out) in zip(chunks, files, results):
+        lst = C.parse_nat_list(out)
+        if rc != 0 or lst is None:
+            return mism, f"coqc could not evaluate {f.name}: {out[-700:]}"
+        mism += [ch[j] for j in lst]
+    return sorted(mism), None
+
+
+ROUND_COQ = {"floor": "RFloor", "ceil": "RCeil", "trunc": "RTrunc", "round": "RRound"}
+
+
+def run_round_correspondence(run: C.Run, ctx: Ctx, cases, shard: int = 800):
+    """math.floor / ceil / trunc / round of quantities: the same calls on Units.Dispatch.round_eval with the binary64
+    roundings float_math (vm_compute in coqc), outcomes compared bit for bit.  Returns (mismatching indices, error)."""
+    d = C.scratch_dir(run.pid)
+    ok_idx = [i for i, cs in enumerate(cases)
+              if "setup_failed" not in cs["out"] and cs["ops"] and all(coq_value(ctx, v) is not None for v in cs["ops"])]
+    bad_idx = [i for i in range(len(cases)) if i not in set(ok_idx)]
+    chunks = [ok_idx[j:j + shard] for j in range(0, len(ok_idx), shard)]
+    files = []
+    for n, ch in enumerate(chunks):
+        _SIG_DEFS.clear()
+        body = ";\n".join(f"({ROUND_COQ[cases[i]['spec']['op']]}, {coq_value(ctx, cases[i]['ops'][0])}, {coq_obs(ctx, cases[i]['out'])})"
+                           for i in ch)
+        defs = "".join(f"Definition {nm} : list Z := {csig_literal(key)}.\n" for key, nm in _SIG_DEFS.items())
+        f = d / f"round_{run.pid.lower()}_{n}.v"
+        f.write_text(PREAMBLE + defs + "Definition cases : list (roundkind * pyval float_ops * R float_ops) := [\n" + body + "\n].\n"
+                     "Eval vm_compute in (round_mismatches_from float_ops gen_module float_math 0 cases).\n")
+        files.append(f)
+    _SIG_DEFS.clear()
+    results = coqc_tree_many(ctx.tree.dir, files)
+    mism = list(bad_idx)
     for ch, f, (rc, out) in zip(chunks, files, results):
         lst = C.parse_nat_list(out)
         if rc != 0 or lst is None:
